@@ -1,4 +1,4 @@
-Require Import Base.Bytes Net.Frame Net.Framed Net.FramedProofs Net.Async Net.AsyncProofs Net.AsyncRefines Net.Concrete.
+Require Import Base.Bytes Net.Frame Net.Framed Net.FramedProofs Net.Async Net.AsyncProofs Net.AsyncRefines Net.Concrete Net.AsyncConvProofs.
 Require Import Props.C19.
 Local Open Scope N_scope.
 Check c19_cancel_safe :
@@ -43,9 +43,25 @@ Check c19_reply_state_in_future_refuted :
     snd (fst (fst (legacy_after_keepalive tpacket [1;3;0;0] p rest [WAccept 0; WPending])))
       = snd (fst (fst (legacy_after_keepalive tpacket [1;3;0;0] q rest [WAccept 0; WPending]))) /\
     legacy_resume_pong tpacket p [3;0;0] [] = (Some (RPacket p), LTop tpacket, [], [3;0;0]).
+Check c19_conversation_without_writes_is_the_session :
+  forall (packet : Type) (parse : bytes -> res packet) (ver_of : packet -> option N)
+         (is_keepalive : packet -> bool) (version : N) (m : mode) (verify : bool) (pong : bytes),
+  forall fuel c s rs ws cancels acc,
+    flat_map (out_of packet) (aconv packet parse ver_of is_keepalive version m verify pong fuel c s rs ws cancels [] acc)
+    = asession packet parse ver_of is_keepalive version m verify pong fuel c s rs ws cancels acc.
+Check c19_conversation_wire_is_whole_frames :
+  forall (packet : Type) (parse : bytes -> res packet) (ver_of : packet -> option N)
+         (is_keepalive : packet -> bool) (version : N) (m : mode) (verify : bool) (pong : bytes),
+  forall fuel c s rs ws cancels wsched acc done,
+    forallb no_fail ws = true ->
+    Inv packet parse ver_of is_keepalive version m verify pong c s ->
+    WInv packet is_keepalive pong s (done ++ acc) ->
+    conv_ok packet is_keepalive pong done (aconv packet parse ver_of is_keepalive version m verify pong fuel c s rs ws cancels wsched acc).
 Print Assumptions c19_cancel_safe.
 Print Assumptions c19_resume_equals_fresh.
 Print Assumptions c19_suspension_invariant.
 Print Assumptions c19_outgoing_whole_replies.
 Print Assumptions c19_uninterrupted_is_the_connection.
 Print Assumptions c19_reply_state_in_future_refuted.
+Print Assumptions c19_conversation_without_writes_is_the_session.
+Print Assumptions c19_conversation_wire_is_whole_frames.
